@@ -173,6 +173,21 @@ fn dedups<const D: usize>(id: &str, rng: &mut Rng, out: &mut Out) {
             pts.insert(at, p);
         }
     }
+    // chains at the scale of the tolerance, in both directions along a random axis: S1, S2 = S1 +
+    // 1.5 eps (a legitimate second survivor in the neighbouring cell) and X = S2 + 0.5 eps (within
+    // the tolerance of S2 only, 2 eps from S1).  A neighbourhood scan that stops at the first
+    // candidate that is NOT a duplicate keeps X whenever it meets S1 first.
+    for dir in [1.0f64, -1.0] {
+        let ax = rng.below(D as u64) as usize;
+        let base: Vec<f64> = (0..D).map(|_| rng.range(-4, 4) as f64 + 8.0 * dir).collect();
+        let mut s2 = base.clone(); s2[ax] += dir * 1.5 * eps;
+        let mut x = s2.clone(); x[ax] += dir * 0.5 * eps;
+        // an exact copy of S2 after S1 as well
+        let copy = s2.clone();
+        let at = rng.below(pts.len() as u64 + 1) as usize;
+        pts.insert(at, base);
+        pts.push(s2); pts.push(x); pts.push(copy);
+    }
     let vs = mk::<D>(&pts, rng);
     let mut run = |name: &str, variant: i32, f: &dyn Fn() -> Vec<V<D>>, out: &mut Out| {
         let r = catch(f);
